@@ -69,3 +69,13 @@ def parseV4 (s : Bytes) : Option V4 :=
 def ofOctets (a b c d : Nat) : V4 := ⟨Fin.ofNat 256 a, Fin.ofNat 256 b, Fin.ofNat 256 c, Fin.ofNat 256 d⟩
 
 end Passage.NetText
+
+namespace Passage.NetText
+
+/-- the address as the four octets the PROXY header model and the listener carry -/
+def v4Octets (x : V4) : Bytes := [UInt8.ofNat x.a.val, UInt8.ofNat x.b.val, UInt8.ofNat x.c.val, UInt8.ofNat x.d.val]
+
+/-- `Ipv4Addr::from_str(..).octets()` -/
+def parseV4Octets (t : Bytes) : Option Bytes := (parseV4 t).map v4Octets
+
+end Passage.NetText
